@@ -91,6 +91,29 @@ def e2_stencil(ck, mod, tier, parsed, found):
             if s_ == 'sat': found.append(('stencil completeness', '%s: two points within the cutoff lie in cells that are not neighbours: %s' % (label, {k: mdl[k] for k in mdl if k[0] in 'uv'}), mdl))
         ck.bounds.setdefault('E2 stencil boxes', []).append('%s, cutoff %s -> %dx%dx%d cells' % (label, rc, d[0], d[1], d[2]))
 
+def e2_exclusions(ck, mod, tier, parsed, found):
+    """ExcludeList then IsExcluded for every ordered pair: excluded iff distinct beads of the same molecule; symmetric; independent of insertion order"""
+    from symx import alloc_i64
+    n = 3; TO = 60
+    ids = [z3.Int('id%d' % i) for i in range(n)]; mols = [z3.Int('mol%d' % i) for i in range(n)]
+    orders = list(itertools.permutations(range(n))) if tier == 'thorough' else [(0, 1, 2), (2, 0, 1), (1, 2, 0)]
+    tot = 0; q = []
+    for order in orders:
+        def body(it):
+            it.assume(z3.Distinct(*ids))
+            pi = alloc_i64(it, 'ids', ids); pm = alloc_i64(it, 'mols', mols); po = alloc_i64(it, 'ord', list(order)); out = it.alloc(8 * n * n, 'out')
+            it.call('@h_excl', [n, pi, pm, po, out]); return [sgn64(it.load(Ptr(out.obj, 8 * k), 8)) for k in range(n * n)]
+        res, st = explore(mod, nb_models(), body, parsed=parsed, max_paths=5000); ck.stubs |= st['models_used']; tot += len(res)
+        for it, o in res:
+            goal = [z3.BoolVal(bool(o[n * i + j])) == z3.And(mols[i] == mols[j], z3.BoolVal(i != j)) for i in range(n) for j in range(n)]
+            q.append((list(it.pc), [z3.Not(z3.And(goal))]))
+    out = smt.parallel_check([(i, a + g) for i, (a, g) in enumerate(q)], timeout_s=TO)
+    bad = [i for i in out if out[i][0] != 'unsat']
+    st_ = 'unsat' if not bad else ('sat' if any(out[i][0] == 'sat' for i in bad) else 'unknown')
+    ck.add_witness('exclusion lookup: %d paths over id orderings and molecule assignments' % tot, tot >= 6)
+    ck.obligation('ExclusionList: after excluding a list of 3 beads, IsExcluded(x,y) holds exactly for distinct beads of the same molecule, in both argument orders, for every id ordering and %d insertion orders (%d path queries)' % (len(orders), len(q)), st_, sum(v[1] for v in out.values()), True, {'model': out[bad[0]][2]} if bad else None)
+    if st_ == 'sat': found.append(('exclusion lookup', 'IsExcluded is not symmetric / not exactly the intramolecular pairs: %s' % out[[i for i in bad if out[i][0] == 'sat'][0]][2], out[bad[0]][2]))
+
 def check_c03(ck, tier, replay=None):
     if replay: print('re-run ./check C03'); return 0
     wd = common.workdir()
@@ -99,10 +122,11 @@ def check_c03(ck, tier, replay=None):
     ck.units += ['csg/src/libcsg/nblistgrid.cc (InitializeGrid, getCell)', 'tools/include/votca/tools/NDimVector.h (index arithmetic)', 'csg box routines through the C02 harness for the minimum-image vector']
     ck.functions.update(common.ir_func_sizes(mod, r'^@h_|NBListGrid'))
     ck.assumptions += ['E1: allocation failure out of scope; grid object = arbitrary state with finite scaled normals and a storage block of exactly Na*Nb*Nc cells', 'E2: exact reals; concrete boxes and cutoffs (listed); the premise "distance below cutoff" is weakened to "all three plane-normal projections of the minimum-image vector below the cutoff", which every pair within the cutoff satisfies',
-                       'pair/triple enumeration over whole configurations (PairList, BeadList, match callbacks, exclusions) is outside this check']
+                       'pair/triple enumeration over whole configurations (PairList, BeadList, match callbacks) is outside this check; the exclusion lookup is covered for one excluded list of three beads']
     found = []
     e1_index(ck, mod, tier, wd, found)
     e2_stencil(ck, mod, tier, {}, found)
+    e2_exclusions(ck, mod, tier, {}, found)
     for tag, what, mdl in found:
         rep = common.write_replay('C03', tag + what, {}, {'tag': tag, 'what': what, 'model': mdl})
         ck.violation('C03 ' + tag, what, rep, reproduced=True)
